@@ -26,6 +26,16 @@ class LoopSpec:
         self.name = name
 
 
+class SymSeq:
+    """An arbitrary-length sequence of symbolic elements; make_elem(i) builds the element bound in an arbitrary
+    iteration.  Iterated only by a `for` with a loop contract (rule: init / preserved for an arbitrary element /
+    after)."""
+
+    def __init__(self, make_elem, name="seq"):
+        self.make_elem = make_elem
+        self.name = name
+
+
 class SuperProxy:
     def __init__(self, obj, owner):
         self.obj = obj
@@ -234,6 +244,10 @@ class Interpreter(Interp):
             if spec is None:
                 raise OutOfReach(f"for over a symbolic collection at line {node.lineno} needs a loop contract")
             return self.for_symbolic(node, env, it, spec)
+        if isinstance(it, SymSeq):
+            if spec is None:
+                raise OutOfReach(f"for over an arbitrary-length sequence at line {node.lineno} needs a loop contract")
+            return self.for_sequence(node, env, it, spec)
         broke = False
         for item in self.iterate(it):
             self.assign(node.target, item, env)
@@ -297,6 +311,70 @@ class Interpreter(Interp):
         for f in spec.inv(self, env, members, members):
             eng.assume(f)
         self.exec_block(node.orelse, env)
+
+    def for_sequence(self, node, env, seq, spec):
+        """Loop over an arbitrary-length sequence: the invariant talks about ghost state the contract maintains
+        (spec.step(interp, env, elem) updates the ghost summary after the body)."""
+        eng = self.eng
+        qual = self.func_stack[-1] if self.func_stack else "?"
+        lname = f"{qual}#for@{spec.name}"
+        # local variables that become symbolic stores from here on
+        for var, typ in getattr(spec, "local_stores", {}).items():
+            cur = env.lookup(var)
+            st = Store(eng, f"local.{var}", typ)
+            from .values import assign_into
+            assign_into(st, typ, "", [], cur)
+            self.bind(env, var, st.view())
+            spec.stores[var] = st
+        for i, f in enumerate(spec.inv(self, env)):
+            eng.oblige(f"{lname}/init/{i}", f, kind="loop-init")
+        which = eng.choose(2, "loop")
+        mods = [m() if callable(m) else m for m in spec.modifies] + list(spec.stores.values())
+        if which == 0:
+            for st in mods:
+                st.havoc("it")
+            for f in spec.inv(self, env):
+                eng.assume(f)
+            elem = seq.make_elem(self)
+            self.assign(node.target, elem, env)
+            try:
+                self.exec_block(node.body, env)
+            except _Continue:
+                pass
+            except _Break:
+                return
+            spec.step(self, env, elem)
+            for i, f in enumerate(spec.inv(self, env)):
+                ob = eng.oblige(f"{lname}/preserved/{i}", f, kind="loop-preserved")
+                if ob.status == "refuted" and hasattr(spec, "witness"):
+                    ob.witness = spec.witness(self, ob, elem)
+            raise PathEnd()
+        for st in mods:
+            st.havoc("after")
+        for f in spec.inv(self, env):
+            eng.assume(f)
+        self.exec_block(node.orelse, env)
+
+    def ex_With(self, node, env):
+        if len(node.items) != 1:
+            raise OutOfReach("with statement with several managers")
+        item = node.items[0]
+        mgr = self.ev(item.context_expr, env)
+        enter = self.getattr_(mgr, "__enter__")
+        exit_ = self.getattr_(mgr, "__exit__")
+        val = self.call(enter, [], {})
+        if item.optional_vars is not None:
+            self.assign(item.optional_vars, val, env)
+        try:
+            self.exec_block(node.body, env)
+        except Raised as r:
+            if self.truth(self.call(exit_, [r.exc.cls, r.exc, None], {})) is True:
+                return
+            raise
+        except (_Return, _Break, _Continue):
+            self.call(exit_, [None, None, None], {})
+            raise
+        self.call(exit_, [None, None, None], {})
 
     def wrap_key(self, coll, x):
         s = x.sort()
@@ -403,9 +481,6 @@ class Interpreter(Interp):
         if pending is not None:
             raise pending
 
-    def ex_With(self, node, env):
-        raise OutOfReach("with statement")
-
     def ex_FunctionDef(self, node, env):
         fv = self.make_func(node, env, self._qual(node.name))
         if node.decorator_list:
@@ -430,9 +505,19 @@ class Interpreter(Interp):
         return fv
 
     def ex_Import(self, node, env):
-        raise OutOfReach("import inside unit")
+        mods = getattr(self, "import_modules", {})
+        for a in node.names:
+            if a.name not in mods:
+                raise OutOfReach(f"import {a.name} inside unit (no assumed contract)")
+            self.bind(env, a.asname or a.name.split(".")[0], mods[a.name])
 
-    ex_ImportFrom = ex_Import
+    def ex_ImportFrom(self, node, env):
+        mods = getattr(self, "import_modules", {})
+        if node.module not in mods:
+            raise OutOfReach(f"from {node.module} import ... inside unit (no assumed contract)")
+        m = mods[node.module]
+        for a in node.names:
+            self.bind(env, a.asname or a.name, self.getattr_(m, a.name))
 
     # ------------------------------------------------------------------------------------------------
     # calls
@@ -1042,6 +1127,7 @@ _VIEW_METHODS = {
     ("SetView", "discard"): lambda i, sv, x: sv.discard(x),
     ("SetView", "remove"): _set_remove,
     ("SetView", "clear"): lambda i, sv: sv.clear(),
+    ("StructView", "update"): lambda i, st, other=None, **kw: [st.setitem(k, v) for k, v in list((other or {}).items()) + list(kw.items())] and None,
     ("StructView", "get"): lambda i, st, k, d=None: st.getitem(k) if i.eng.branch(st.has(k), "sget") else d,
 }
 
@@ -1180,6 +1266,8 @@ def _interleave(sep, xs):
 
 # ---- builtins ---------------------------------------------------------------------------------------------
 def _b_len(interp, v):
+    if isinstance(v, Rec) and "__len__" in v._fields:
+        return interp.call(v._fields["__len__"], [], {})
     if isinstance(v, PartsList):
         return v.length()
     if isinstance(v, SymPySet):
